@@ -12,9 +12,11 @@ type UnwrapPlanner struct {
 
 func (l *UnwrapPlanner) Process(ctx *shared.PlannerContext,
 	in chan []shared.LogEntry) (chan []shared.LogEntry, error) {
+	var _entries []shared.LogEntry
 	return l.WrapProcess(ctx, in, GenericPlannerOps{
 		OnEntry: func(entry *shared.LogEntry) error {
 			if entry.Err != nil {
+				_entries = append(_entries, *entry)
 				return nil
 			}
 			var val string
@@ -23,17 +25,18 @@ func (l *UnwrapPlanner) Process(ctx *shared.PlannerContext,
 			} else {
 				val = entry.Labels[l.Label]
 			}
-			if val != "" {
-				fVal, err := strconv.ParseFloat(val, 64)
-				if err != nil {
-					return nil
-				}
-				entry.Value = fVal
+			// an entry whose label is missing or does not hold a number has no value to aggregate
+			fVal, err := strconv.ParseFloat(val, 64)
+			if err != nil {
+				return nil
 			}
+			entry.Value = fVal
+			_entries = append(_entries, *entry)
 			return nil
 		},
 		OnAfterEntriesSlice: func(entries []shared.LogEntry, c chan []shared.LogEntry) error {
-			c <- entries
+			c <- _entries
+			_entries = nil
 			return nil
 		},
 		OnAfterEntries: func(c chan []shared.LogEntry) error {
